@@ -18,6 +18,10 @@ Proof.
   - destruct e; inversion H; reflexivity.
 Qed.
 
+Lemma refused_op_unchanged : forall o d r oc d' r' n,
+  run_op o d r = (oc, d', r', n) -> (forall a, oc <> OOk a) -> d' = d.
+Proof. intros. eapply with_conn_refused_unchanged; eauto. discriminate. Qed.
+
 (* ------------------------------------------------------------------ retrievals change nothing *)
 Fixpoint readonly {A} (p : prog A) : Prop :=
   match p with
@@ -138,25 +142,26 @@ Fixpoint run_regblind {A} (p : prog A) : forall flt d r1 r2 n, regblind p ->
   /\ s_n (snd (run flt p (mkSt d r1 n))) = s_n (snd (run flt p (mkSt d r2 n))).
 Proof.
   destruct p as [a0|e0|B f h kk|B f kk]; intros flt d r1 r2 n Hb; simpl in *.
-  - auto.
-  - auto.
+  - repeat split; reflexivity.
+  - repeat split; reflexivity.
   - destruct Hb as [Hh Hk].
     destruct (match hits flt (S n) with Some e => Bad e | None => f d end) as [[b d']|e].
-    + apply (run_regblind _ (kk b)); auto.
-    + destruct e; simpl; auto. destruct h as [q|]; simpl; auto. apply (run_regblind _ q); auto.
+    + apply (run_regblind _ (kk b)). apply Hk.
+    + destruct e; simpl; try (repeat split; reflexivity).
+      destruct h as [q|]; simpl; [|repeat split; reflexivity]. apply (run_regblind _ q). exact Hh.
   - destruct Hb as [Hf Hk]. specialize (Hf r1 r2).
     destruct (f r1) as [b1 r1'], (f r2) as [b2 r2']. simpl in Hf. subst b2.
-    apply (run_regblind _ (kk b1)); auto.
+    apply (run_regblind _ (kk b1)). apply Hk.
 Qed.
 Lemma regblind_bind : forall A C (p : prog A) (g : A -> prog C), regblind p -> (forall a, regblind (g a)) -> regblind (bindP p g).
 Proof.
   fix IH 3. intros A C p g Hp Hg. destruct p as [a0|e0|B f h kk|B f kk]; simpl in *.
-  - auto.
-  - auto.
+  - apply Hg.
+  - exact I.
   - destruct Hp as [Hh Hk]. split.
-    + destruct h as [q|]; auto.
-    + intro b. apply IH; auto.
-  - destruct Hp as [Hf Hk]. split; auto.
+    + destruct h as [q|]; [|exact I]. apply IH; [exact Hh|exact Hg].
+    + intro b. apply IH; [apply Hk|exact Hg].
+  - destruct Hp as [Hf Hk]. split; [exact Hf|]. intro b. apply IH; [apply Hk|exact Hg].
 Qed.
 Lemma regblind_ex : forall B (f : stmt B), regblind (ex f).
 Proof. intros. simpl. split; auto. Qed.
@@ -222,3 +227,86 @@ Proof.
   destruct (run None (seqP (ex pragma_fk) (body o)) (mkSt d r2 0)) as [res2 s2].
   simpl in *. subst res2. destruct res1 as [a|e]; simpl; [rewrite H2; auto|]. destruct e; simpl; auto.
 Qed.
+
+(* ------------------------------------------------------------------ several files, arbitrary histories *)
+Lemma length_set_nth : forall X (l : list X) n x, length (set_nth n x l) = length l.
+Proof. induction l; destruct n; simpl; auto. Qed.
+Lemma nth_set_nth_same : forall X (l : list X) n x dflt, (n < length l)%nat -> nth n (set_nth n x l) dflt = x.
+Proof. induction l; destruct n; simpl; intros; try lia; auto. apply IHl. lia. Qed.
+Lemma nth_set_nth_other : forall X (l : list X) n m x dflt, n <> m -> nth m (set_nth n x l) dflt = nth m l dflt.
+Proof. induction l; destruct n, m; simpl; intros; try congruence; auto. Qed.
+
+Definition files_after (x : outcome * files * reg * nat) : files := snd (fst (fst x)).
+(* a call never touches another file *)
+Theorem other_files_untouched : forall fs r fo j, j <> fst fo -> nth j (files_after (step fs r fo)) empty_db = nth j fs empty_db.
+Proof.
+  intros fs r [i o] j Hj. unfold step, files_after. simpl.
+  destruct (run_op o (nth i fs empty_db) r) as [[[oc d'] r'] n]. simpl. apply nth_set_nth_other. auto.
+Qed.
+
+(* the operations aimed at file i, run on that file alone *)
+Fixpoint proj (i : nat) (h : list (nat * op)) : list op :=
+  match h with [] => [] | (f, o) :: t => if Nat.eqb f i then o :: proj i t else proj i t end.
+Fixpoint run_file (d : db) (r : reg) (l : list op) : db :=
+  match l with [] => d | o :: t => let '(_, d', r', _) := run_op o d r in run_file d' r' t end.
+Definition final_files (x : list outcome * files * reg) : files := snd (fst x).
+Theorem history_files_independent : forall h fs r r2 i,
+  forallb (fun fo => negb (uses_registry (snd fo))) h = true -> (i < length fs)%nat ->
+  nth i (final_files (run_hist fs r h)) empty_db = run_file (nth i fs empty_db) r2 (proj i h).
+Proof.
+  induction h as [|[f o] t IH]; intros fs r r2 i Hall Hi; simpl.
+  - reflexivity.
+  - simpl in Hall. apply andb_true_iff in Hall. destruct Hall as [Ho Hall]. apply negb_true_iff in Ho.
+    unfold step. simpl.
+    destruct (run_op o (nth f fs empty_db) r) as [[[oc d'] r'] n] eqn:E1.
+    destruct (run_hist (set_nth f d' fs) r' t) as [[ocs fs''] r''] eqn:E2. simpl.
+    assert (Hfin : fs'' = final_files (run_hist (set_nth f d' fs) r' t)) by (rewrite E2; reflexivity).
+    destruct (Nat.eqb f i) eqn:Ef.
+    + apply Nat.eqb_eq in Ef. subst f. simpl.
+      destruct (run_op o (nth i fs empty_db) r2) as [[[oc2 d2] r2'] n2] eqn:E3.
+      assert (d2 = d').
+      { pose proof (outcome_depends_on_target_file_only o (nth i fs empty_db) r r2 Ho) as [_ H]. rewrite E1, E3 in H. simpl in H. auto. }
+      subst d2. change (nth i fs'' empty_db = run_file d' r2' (proj i t)). rewrite Hfin. rewrite (IH _ r' r2' i Hall).
+      * rewrite nth_set_nth_same; auto.
+      * rewrite length_set_nth. auto.
+    + apply Nat.eqb_neq in Ef. change (nth i fs'' empty_db = run_file (nth i fs empty_db) r2 (proj i t)). rewrite Hfin. rewrite (IH _ r' r2 i Hall).
+      * rewrite nth_set_nth_other; auto.
+      * rewrite length_set_nth. auto.
+Qed.
+
+(* ------------------------------------------------------------------ where the implementation (faithfully modelled) leaves the dictionary *)
+Definition w_db : db := mkDb (mkS [(1, 10)] 2 [] 1 [] 1) empty_store [mkT 1 A_point VNull VNull] 2 [] [] 1 [] 1.
+Definition w_iso : isoin := mkIn 100 A_point 30 [] 10 [] (VNum 7) [(40, VText 41)] [(50, 51, 52)].
+Definition plain (v : val) : val := v.
+Definition db_after (x : outcome * db * reg * nat) : db := snd (fst (fst x)).
+Definition oc_after (x : outcome * db * reg * nat) : outcome := fst (fst (fst x)).
+Definition outcomes (x : list outcome * files * reg) := fst (fst x).
+(* upload to file 0, then the same upload to the fresh file 1: the material is registered, not inserted, FOREIGN KEY fails *)
+Lemma registry_cross_file_w :
+  outcomes (run_hist [w_db; w_db] (mkReg [10] []) [(0%nat, IsoUp w_iso true true); (1%nat, IsoUp w_iso true true)]) = [OOk RUnit; OParsing]
+  /\ fst (sstep plain (IsoUp w_iso true true) (abs w_db)) = true.
+Proof. vm_compute. split; reflexivity. Qed.
+(* numeric-looking text comes back as a number (REAL affinity of the value column) *)
+Lemma numeric_text_w :
+  let d' := db_after (run_op (EntUp EMat 30 [(20, [VNumText 7 8])] true false) w_db (mkReg [] [])) in
+  s_items (smat (abs d')) = [(30, [(20, VNum 8)])]
+  /\ s_items (smat (snd (sstep plain (EntUp EMat 30 [(20, [VNumText 7 8])] true false) (abs w_db)))) = [(30, [(20, VNumText 7 8)])]
+  /\ vcode (VNum 8) <> vcode (VNumText 7 8).
+Proof. vm_compute. repeat split; discriminate. Qed.
+(* what isotherms_from_db hands to the constructor carries the extra key iso_type: the retrieved isotherm is not the stored one *)
+Lemma retrieved_iso_extra_key_w :
+  let d' := db_after (run_op (IsoUp w_iso true true) w_db (mkReg [10] [])) in
+  match oc_after (run_op (IsoGet (mkC None None None None)) d' (mkReg [10] [30])) with
+  | OOk (RIsos [x]) => o_props x = (A_iso_type, VText A_point) :: n_props w_iso /\ o_data x = n_data w_iso
+  | _ => False end.
+Proof. vm_compute. split; reflexivity. Qed.
+(* isotherm property types: the schema has no table isotherm_properties_type *)
+Lemma iso_property_types_w : forall d r ty u ds w,
+  fst (fst (fst (run_op (TyUp TIsoProp ty u ds w) d r))) = OOther EOperational.
+Proof. intros. unfold run_op, with_conn, body, type_upload. destruct w; reflexivity. Qed.
+(* a list-valued material property: materials_from_db keeps the last value only *)
+Lemma material_list_collapsed_w :
+  let d' := db_after (run_op (EntUp EMat 30 [(20, [VText 1; VText 2])] true false) w_db (mkReg [] [])) in
+  s_items (smat (abs d')) = [(30, [(20, VText 1); (20, VText 2)])]
+  /\ oc_after (run_op (EntGet EMat) d' (mkReg [] [30])) = OOk (REnts [(1, 30, [(20, VText 2)])]).
+Proof. vm_compute. split; reflexivity. Qed.
